@@ -139,6 +139,51 @@ def _real_of_float(x):
     return z3.RealVal(str(fr))
 
 
+class _Inf:
+    """+infinity as produced by np.inf in solver state (resid = np.inf): only comparisons are supported"""
+
+    def __init__(self, sign=1):
+        self.sign = sign
+
+    def __neg__(self):
+        return _Inf(-self.sign)
+
+    def _c(self, o, when_pos):
+        if isinstance(o, _Inf):
+            raise Unsupported("inf compared with inf")
+        return when_pos if self.sign > 0 else (not when_pos)
+
+    def __le__(self, o):
+        return self._c(o, False)
+
+    def __lt__(self, o):
+        return self._c(o, False)
+
+    def __ge__(self, o):
+        return self._c(o, True)
+
+    def __gt__(self, o):
+        return self._c(o, True)
+
+    def __eq__(self, o):
+        return isinstance(o, _Inf) and o.sign == self.sign
+
+    def __ne__(self, o):
+        return not self.__eq__(o)
+
+    def __hash__(self):
+        return hash(("inf", self.sign))
+
+    def item(self):
+        return self
+
+    def __repr__(self):
+        return "inf" if self.sign > 0 else "-inf"
+
+
+INF = _Inf()
+
+
 def is_sym(x):
     return isinstance(x, (Sym, SymBool))
 
@@ -374,7 +419,7 @@ class Sym:
 
     # -- comparisons
     def _cmp(self, o, f):
-        if o is None:
+        if o is None or isinstance(o, _Inf):
             return NotImplemented
         try:
             b = _lift(o)
